@@ -71,8 +71,110 @@ type caseIn struct {
 var nsUUID = uuid.MustParse("6ba7b810-9dad-11d1-80b4-00c04fd430c8")
 
 func infoOf(i int) *message.UpstreamInfo {
-	return &message.UpstreamInfo{SessionID: fmt.Sprintf("s%d", i), SourceNodeID: fmt.Sprintf("n%d", i),
+	// an upstream belongs to one of the source nodes a downstream can subscribe (node i mod 3), so that
+	// metadata about the upstream comes from the node named in its info
+	return &message.UpstreamInfo{SessionID: fmt.Sprintf("s%d", i), SourceNodeID: srcOf(i % 3),
 		StreamID: uuid.NewSHA1(nsUUID, []byte(fmt.Sprintf("up%d", i)))}
+}
+
+// metadata bodies: var*1000000 + up*1000 + k.  var 0 = BaseTime (body = k), 1 UpstreamOpen, 2 UpstreamResume,
+// 3 UpstreamAbnormalClose, 4 UpstreamNormalClose (of upstream info up); 5 DownstreamOpen, 6 DownstreamResume,
+// 7 DownstreamAbnormalClose, 8 DownstreamNormalClose (of some other node's downstream k)
+var qosList = []message.QoS{message.QoSUnreliable, message.QoSReliable, message.QoSPartial}
+
+func downIDOf(k int) uuid.UUID { return uuid.NewSHA1(nsUUID, []byte(fmt.Sprintf("down%d", k))) }
+
+func metaOf(body int) message.Metadata {
+	v, up, k := body/1000000, body/1000%1000, body%1000
+	in := infoOf(up)
+	switch v {
+	case 1:
+		return &message.UpstreamOpen{StreamID: in.StreamID, SessionID: in.SessionID, QoS: qosList[k%3]}
+	case 2:
+		return &message.UpstreamResume{StreamID: in.StreamID, SessionID: in.SessionID, QoS: qosList[k%3]}
+	case 3:
+		return &message.UpstreamAbnormalClose{StreamID: in.StreamID, SessionID: in.SessionID}
+	case 4:
+		return &message.UpstreamNormalClose{StreamID: in.StreamID, SessionID: in.SessionID, TotalDataPoints: uint64(k), FinalSequenceNumber: uint32(k)}
+	case 5:
+		return &message.DownstreamOpen{StreamID: downIDOf(k), QoS: qosList[k%3]}
+	case 6:
+		return &message.DownstreamResume{StreamID: downIDOf(k), QoS: qosList[k%3]}
+	case 7:
+		return &message.DownstreamAbnormalClose{StreamID: downIDOf(k)}
+	case 8:
+		return &message.DownstreamNormalClose{StreamID: downIDOf(k)}
+	}
+	return &message.BaseTime{SessionID: "sess", Name: fmt.Sprintf("m%d", body), Priority: uint8(body % 200),
+		ElapsedTime: time.Duration(body), BaseTime: time.Unix(1700000000+int64(body), 0).UTC()}
+}
+
+// bodyOf is the inverse of metaOf (900000 = not a value metaOf produces)
+func (n *names) bodyOf(m message.Metadata) int {
+	qi := func(q message.QoS) int {
+		for i, x := range qosList {
+			if x == q {
+				return i
+			}
+		}
+		return -1
+	}
+	upOf := func(id uuid.UUID, sess string) int {
+		i, ok := n.stream[id]
+		if !ok || infoOf(i).SessionID != sess {
+			return -1
+		}
+		return i
+	}
+	downOf := func(id uuid.UUID) int {
+		for k := 0; k < 1000; k++ {
+			if downIDOf(k) == id {
+				return k
+			}
+		}
+		return -1
+	}
+	bad := 900000
+	switch t := m.(type) {
+	case *message.BaseTime:
+		k := int(t.ElapsedTime)
+		if t.SessionID == "sess" && t.Name == fmt.Sprintf("m%d", k) && t.Priority == uint8(k%200) && t.BaseTime.Equal(time.Unix(1700000000+int64(k), 0)) {
+			return k
+		}
+	case *message.UpstreamOpen:
+		if up, q := upOf(t.StreamID, t.SessionID), qi(t.QoS); up >= 0 && q >= 0 {
+			return 1000000 + up*1000 + q
+		}
+	case *message.UpstreamResume:
+		if up, q := upOf(t.StreamID, t.SessionID), qi(t.QoS); up >= 0 && q >= 0 {
+			return 2000000 + up*1000 + q
+		}
+	case *message.UpstreamAbnormalClose:
+		if up := upOf(t.StreamID, t.SessionID); up >= 0 {
+			return 3000000 + up*1000
+		}
+	case *message.UpstreamNormalClose:
+		if up := upOf(t.StreamID, t.SessionID); up >= 0 && t.TotalDataPoints == uint64(t.FinalSequenceNumber) && t.FinalSequenceNumber < 1000 {
+			return 4000000 + up*1000 + int(t.FinalSequenceNumber)
+		}
+	case *message.DownstreamOpen:
+		if k, q := downOf(t.StreamID), qi(t.QoS); k >= 0 && q == k%3 {
+			return 5000000 + k
+		}
+	case *message.DownstreamResume:
+		if k, q := downOf(t.StreamID), qi(t.QoS); k >= 0 && q == k%3 {
+			return 6000000 + k
+		}
+	case *message.DownstreamAbnormalClose:
+		if k := downOf(t.StreamID); k >= 0 {
+			return 7000000 + k
+		}
+	case *message.DownstreamNormalClose:
+		if k := downOf(t.StreamID); k >= 0 {
+			return 8000000 + k
+		}
+	}
+	return bad
 }
 func didOf(i int) *message.DataID { return &message.DataID{Name: fmt.Sprintf("d%d", i), Type: "t"} }
 func srcOf(i int) string        { return fmt.Sprintf("src%d", i) }
@@ -449,8 +551,7 @@ func runCase(c *caseIn, r *rng.R) (res result) {
 	sendMeta := func(op *opIn) (string, error) {
 		reqID += 2
 		m := &message.DownstreamMetadata{RequestID: message.RequestID(reqID), StreamIDAlias: streamAlias, SourceNodeID: srcOf(op.Src),
-			Metadata: &message.BaseTime{SessionID: "sess", Name: fmt.Sprintf("m%d", op.Body), Priority: uint8(op.Body % 200),
-				ElapsedTime: time.Duration(op.Body), BaseTime: time.Unix(1700000000+int64(op.Body), 0).UTC()}}
+			Metadata: metaOf(op.Body)}
 		return fmt.Sprintf("ArriveMeta (%d,%d,%d)", op.Src, reqID, op.Body), sess.Send(m)
 	}
 	await := func() bool {
@@ -648,14 +749,7 @@ func runCase(c *caseIn, r *rng.R) (res result) {
 						ec := errClass(err)
 						resT := "None"
 						if ec == 0 && md != nil {
-							body := 900000
-							if bt, ok := md.Metadata.(*message.BaseTime); ok {
-								kk := int(bt.ElapsedTime)
-								if bt.SessionID == "sess" && bt.Name == fmt.Sprintf("m%d", kk) && bt.Priority == uint8(kk%200) &&
-									bt.BaseTime.Equal(time.Unix(1700000000+int64(kk), 0)) {
-									body = kk
-								}
-							}
+							body := nm.bodyOf(md.Metadata)
 							sn, ok := nm.src[md.SourceNodeID]
 							if !ok {
 								sn = 900000
@@ -780,14 +874,7 @@ func runCase(c *caseIn, r *rng.R) (res result) {
 				if qm > 0 {
 					qm--
 				}
-				body := 900000
-				if bt, ok := md.Metadata.(*message.BaseTime); ok {
-					k := int(bt.ElapsedTime)
-					if bt.SessionID == "sess" && bt.Name == fmt.Sprintf("m%d", k) && bt.Priority == uint8(k%200) &&
-						bt.BaseTime.Equal(time.Unix(1700000000+int64(k), 0)) {
-						body = k
-					}
-				}
+				body := nm.bodyOf(md.Metadata)
 				s, ok := nm.src[md.SourceNodeID]
 				if !ok {
 					s = 900000
@@ -1024,12 +1111,33 @@ func genCase(r *rng.R) *caseIn {
 		case k < 80:
 			body++
 			src := r.Intn(c.NSrc)
-			if r.Chance(1, 10) {
+			b := body
+			if r.Chance(1, 2) {
+				// any other metadata variant; those about an upstream name one whose chunks were sent
+				// (and are often still queued) and come from that upstream's source node
+				v := 1 + r.Intn(8)
+				k := body % 1000
+				switch {
+				case v <= 4:
+					up := 1 + r.Intn(ninfo)
+					src = up % 3
+					switch v {
+					case 1, 2:
+						k = k % 3
+					case 3:
+						k = 0
+					}
+					b = v*1000000 + up*1000 + k
+				default:
+					b = v*1000000 + k
+				}
+			} else if r.Chance(1, 10) {
 				src = c.NSrc // a node without filter: discarded by the wire connection
-			} else {
+			}
+			if src < c.NSrc {
 				mqueued++
 			}
-			c.Ops = append(c.Ops, opIn{Op: "meta", Src: src, Body: body})
+			c.Ops = append(c.Ops, opIn{Op: "meta", Src: src, Body: b})
 		case k < 88:
 			c.Ops = append(c.Ops, opIn{Op: "readmeta"})
 			if mqueued > 0 {
@@ -1295,6 +1403,22 @@ func main() {
 			{Op: "read"}, {Op: "read"}, {Op: "read"}, {Op: "read"},
 			{Op: "arrive", Up: 2, Seq: 2}, {Op: "arrive", UpFull: true, Up: 1, Seq: 5}, {Op: "arrive", Up: 2, Seq: 3}, {Op: "arrive", UpFull: true, Up: 2, Seq: 4}, {Op: "arrive", Up: 1, Seq: 6},
 			{Op: "read"}, {Op: "read"}, {Op: "read"}, {Op: "read"}, {Op: "read"}, {Op: "close"}}}, "scripted")
+		// every metadata variant about an upstream that has an alias, arriving (and read, or not) while a
+		// full-form and an alias-form chunk of that upstream are still queued
+		for v := 1; v <= 8; v++ {
+			ops := []opIn{
+				{Op: "arrive", UpFull: true, Up: 1, Seq: 1, Groups: []grpIn{g(true, 1)}}, {Op: "read"},
+				{Op: "arrive", UpFull: true, Up: 1, Seq: 2, Groups: []grpIn{g(false, 1)}},
+				{Op: "arrive", Up: 1, Seq: 3, Groups: []grpIn{g(false, 1)}},
+				{Op: "arrive", UpFull: true, Up: 2, Seq: 1},
+				{Op: "meta", Src: 1, Body: map[bool]int{true: v*1000000 + 1*1000 + v%3, false: v*1000000 + 40 + v}[v <= 4]}}
+			if v%2 == 0 {
+				ops = append(ops, opIn{Op: "readmeta"})
+			}
+			ops = append(ops, opIn{Op: "read"}, opIn{Op: "read"}, opIn{Op: "read"}, opIn{Op: "readmeta"},
+				opIn{Op: "arrive", Up: 1, Seq: 4}, opIn{Op: "read"}, opIn{Op: "close"})
+			add(&caseIn{QoS: v % 3, NSrc: 3, IntervalMs: []int{1, 10000}[v%2], Ops: ops}, "scripted")
+		}
 		// ack flush stuck in the write while the next chunk is read, then the link dies
 		add(&caseIn{QoS: 1, NSrc: 1, IntervalMs: 1, Outage: true, Ops: []opIn{
 			{Op: "arrive", UpFull: true, Up: 1, Seq: 1, Groups: []grpIn{g(true, 1)}},
@@ -1363,7 +1487,7 @@ func main() {
 			}
 		}
 	}
-	rule := "scripted switch-over histories; overflow histories (more than 1024 chunks / metadata items queued before any read); random: 4-31 ops over 1-5 upstreams x 1-6 data ids mixing full and alias forms (full form again after the alias exists, alias used in the chunk that introduces the id, unknown aliases, pre-registered ids), 0-4 groups of 0-3 points, metadata from 1-3 source nodes, reads lagging arbitrarily, reads on an empty queue, awaits of the timer-driven ack flush (interval 1/5/20 ms) or a 10 s interval with everything pending at Close, reads and a second Close after Close, QoS x3; outage: the same with 1-2 loud link failures in the middle (keepalive 10/40 ms, the broker accepts the redial and the resume request), half of them with a 10 s flush interval so that every result read before the failure is still pending when the link dies; the failed flushes are recovered from the gap in the ack ids; stuck: the peer stops reading so that an ack flush blocks in the transport write, the next chunk is read meanwhile, then the link is cut (the write fails) and the stream resumes; metaburst: 3-5 rounds of 300-500 metadata of a node named by two or three filters, sent back to back with a concurrent reader; filters may name a node twice, metadata of nodes without filter are sent too; pre-registered id lists may repeat an id; a third of all cases (every QoS) run over a transport with an unreliable channel (AsUnreliable ok): chunks of unreliable-QoS streams are sent on it, reliable and partial ones on the reliable channel; bigburst: 1500 / 2300 (with an awaited flush after the first part) / 2500 / 3100 chunks returned by ReadDataPoints with a 20 ms / 10 s / 1 h ack flush interval, then Close. non-trivial = >=2 upstreams returned, >=1 returned chunk whose upstream came in alias form, >=1 returned group in alias form, >=2 acks; distinct = distinct Coq case terms"
+	rule := "scripted switch-over histories; overflow histories (more than 1024 chunks / metadata items queued before any read); random: 4-31 ops over 1-5 upstreams x 1-6 data ids mixing full and alias forms (full form again after the alias exists, alias used in the chunk that introduces the id, unknown aliases, pre-registered ids), 0-4 groups of 0-3 points, metadata from 1-3 source nodes, reads lagging arbitrarily, reads on an empty queue, awaits of the timer-driven ack flush (interval 1/5/20 ms) or a 10 s interval with everything pending at Close, reads and a second Close after Close, QoS x3; outage: the same with 1-2 loud link failures in the middle (keepalive 10/40 ms, the broker accepts the redial and the resume request), half of them with a 10 s flush interval so that every result read before the failure is still pending when the link dies; the failed flushes are recovered from the gap in the ack ids; stuck: the peer stops reading so that an ack flush blocks in the transport write, the next chunk is read meanwhile, then the link is cut (the write fails) and the stream resumes; metaburst: 3-5 rounds of 300-500 metadata of a node named by two or three filters, sent back to back with a concurrent reader; filters may name a node twice, metadata of nodes without filter are sent too; pre-registered id lists may repeat an id; half of the metadata are of the other variants (upstream open / resume / normal and abnormal close naming an upstream whose chunks were sent and are often still queued, downstream open / resume / closes), the rest base times; a third of all cases (every QoS) run over a transport with an unreliable channel (AsUnreliable ok): chunks of unreliable-QoS streams are sent on it, reliable and partial ones on the reliable channel; bigburst: 1500 / 2300 (with an awaited flush after the first part) / 2500 / 3100 chunks returned by ReadDataPoints with a 20 ms / 10 s / 1 h ack flush interval, then Close. non-trivial = >=2 upstreams returned, >=1 returned chunk whose upstream came in alias form, >=1 returned group in alias form, >=2 acks; distinct = distinct Coq case terms"
 	if err := w.Flush(*seed, *tier, rule, false, nil); err != nil {
 		fmt.Fprintln(os.Stderr, err)
 		os.Exit(2)
